@@ -151,6 +151,28 @@ def run_case(case, stats):
                         bad = compare(res, rows)
                         if bad:
                             raise Violation("engine-disagrees", f"{bad}; program {fmt(prog, leaves)}; tree {root}")
+        # after everything above was compiled / executed, each leaf still executes to its own rows, within its declared
+        # bounds (the leaves' truthfulness is the premise of every other statement here)
+        from vf.core.prog import leaf_indices, leaf_rows, multiset
+
+        for i in sorted(leaf_indices(prog)):
+            if leaves[i][4] != "data":
+                continue
+            lrel = env.leafrels[i]
+            try:
+                got = env.run_iter(lrel) if which == "iter" else compile_and_run(env, lrel)[0][0]
+            except (CompileError, DatabaseError):
+                continue
+            except Exception as e:
+                raise Violation("execute-raised", f"re-executing leaf {leaves[i][0]} raised {type(e).__name__}: {e}", exc=e)
+            want = leaf_rows(leaves[i])
+            lo, hi = lrel.min_rows, lrel.max_rows
+            if not (lo <= len(got) and (hi is None or len(got) <= hi)) or multiset(got) != multiset(want):
+                raise Violation(
+                    "leaf-content-changed",
+                    f"leaf {leaves[i][0]} (declared bounds [{lo}, {hi}], {len(want)} rows) executes to {len(got)} rows {got[:6]} after the program {fmt(prog, leaves)} was executed",
+                )
+            stats.c["leaves_reexecuted"] += 1
         ks = set(kinds(prog))
         bounded = any(l[4] != "data" or l[5] != (0, None) for l in leaves)
         if ks & {"slice", "dedup", "join", "chain", "sel"} and bounded:
